@@ -96,9 +96,38 @@ def impl_hier_compile(case):
         # integer literals handed over as native ints (a port of size 0 is the integer 0, not the text "0")
         from hier import native_numbers
         doc = native_numbers(doc)
+    if case.get("as_object"):
+        # qref sorts ports, resources, connections and links by name when a document is validated; to let the LISTED order
+        # reach bartiq the validated object's lists are put back, in place, into the order the case lists them in
+        from qref import SchemaV1
+        doc = SchemaV1(**doc)
+        _force_listing(doc.program, case["routine"])
     res = compile_routine(doc, **kw)
     tree = walk_compiled(res.routine, flags)
     return {"tree": tree, "inexact": flags["inexact"]}
+
+
+def _force_listing(q, r):
+    def reorder(lst, key, wanted):
+        idx = {k: i for i, k in enumerate(wanted)}
+        lst[:] = sorted(lst, key=lambda x: idx.get(key(x), len(idx)))
+
+    from hier import to_qref
+    ref = to_qref(r)["program"] if "program" not in r else r["program"]
+    reorder(q.ports, lambda p: p.name, [p["name"] for p in ref.get("ports", [])])
+    reorder(q.resources, lambda x: x.name, [x["name"] for x in ref.get("resources", [])])
+    conn_key = lambda c: (f"{c.source}", f"{c.target}") if not isinstance(c, str) else c   # noqa: E731
+    want = []
+    for c in ref.get("connections", []):
+        want.append(tuple(x.strip() for x in c.split("->")) if isinstance(c, str) else (c["source"], c["target"]))
+    try:
+        reorder(q.connections, lambda c: (str(c.source), str(c.target)), want)
+    except Exception:
+        pass
+    by_name = {c["name"]: c for c in r["children"]}
+    for ch in q.children:
+        if ch.name in by_name:
+            _force_listing(ch, by_name[ch.name])
 
 
 # ------------------------------------------------------------------ evaluation
@@ -184,7 +213,7 @@ def impl_hier_permute(case):
     perm = permute_lists(case["routine"], random.Random(case["seed"]), case.get("child_perm"), reverse=bool(case.get("reverse")))
     for tag, r in (("a", case["routine"]), ("b", perm)):
         try:
-            out[tag] = dict(impl_hier_compile({"routine": r}), ok=True)
+            out[tag] = dict(impl_hier_compile({"routine": r, "as_object": tag == "b" and bool(case.get("as_object"))}), ok=True)
         except BaseException as e:  # noqa: BLE001
             if type(e).__name__ == "CaseTimeout":
                 raise
